@@ -2219,10 +2219,17 @@ func (r *Raft) preElectSelf() <-chan *preVoteResult {
 
 // persistVote is used to persist our vote for safety.
 func (r *Raft) persistVote(term uint64, candidate []byte) error {
-	if err := r.stable.SetUint64(keyLastVoteTerm, term); err != nil {
+	// The two values cannot be written atomically, so the order matters when we
+	// crash, or the store fails, between the writes. Candidate first: what is
+	// left behind is then (an older term, the new candidate), which can never
+	// match a request because the current term has already been persisted
+	// beyond that older term. Term first would leave (the new term, whoever we
+	// voted for before), and that candidate would then be re-granted its vote
+	// for the new term by the duplicate-vote check, without the log comparison.
+	if err := r.stable.Set(keyLastVoteCand, candidate); err != nil {
 		return err
 	}
-	if err := r.stable.Set(keyLastVoteCand, candidate); err != nil {
+	if err := r.stable.SetUint64(keyLastVoteTerm, term); err != nil {
 		return err
 	}
 	return nil
